@@ -10,6 +10,9 @@ import (
 	"MODULEPATH/zzverif/rt"
 )
 
+// c07ViaProto is the transport the sender names in its Via (the one the request travels over).
+var c07ViaProto = "UDP"
+
 // c07Request builds a request whose top Via names a host/port different from the source.
 func c07Request(L int, rportKind, recvKind int) (text, via0, via1 string) {
 	branch := ";branch=z9hG4bK" + rt.Str("br", "alnum", 1, L)
@@ -29,9 +32,9 @@ func c07Request(L int, rportKind, recvKind int) (text, via0, via1 string) {
 	}
 	// the parameters may stand before or after the branch
 	if rt.Bool("params-before-branch") {
-		via0 = "SIP/2.0/UDP 192.0.2.1:7777" + params + branch
+		via0 = "SIP/2.0/" + c07ViaProto + " 192.0.2.1:7777" + params + branch
 	} else {
-		via0 = "SIP/2.0/UDP 192.0.2.1:7777" + branch + params
+		via0 = "SIP/2.0/" + c07ViaProto + " 192.0.2.1:7777" + branch + params
 	}
 	if rt.Bool("extra-param") {
 		via0 += ";" + rt.Str("xk", "[a-qs-z]", 1, L) + "=" + rt.Str("xv", clsToken, 1, L)
@@ -181,7 +184,12 @@ func VC07_Wiring() {
 	}
 	rt.Quiesce()
 	srcIP := "10.0.2." + rt.Dec("octet", 2)
+	c07ViaProto = "UDP"
+	if tcp {
+		c07ViaProto = "TCP"
+	}
 	text, via0, _ := c07Request(L, 1, 0)
+	c07ViaProto = "UDP"
 	if tcp {
 		rt.Assert(len(fakenet.Listeners) == 1, "TCP listener created")
 		if len(fakenet.Listeners) != 1 {
@@ -226,6 +234,43 @@ func VC07_Wiring() {
 		r, has := paramOf(got[1], "received")
 		rp, hasRp := paramOf(got[1], "rport")
 		rt.Assert(has && r == srcIP && hasRp && rp == "4444", "default (no-received absent/false): received and rport are stamped")
+	}
+	// the response leg: the backend answers with the Via stack it received; the response travels back
+	// to the packet's true source (UDP) / on the connection the request arrived on (TCP)
+	var udpSock *fakenet.UDPConn
+	for _, u := range fakenet.UDPConns {
+		if u.LocalAddr().String() == wListenAddr+":5060" {
+			udpSock = u
+		}
+	}
+	if udpSock == nil {
+		return
+	}
+	mark := len(fakenet.Sent)
+	dials := 0
+	for _, n := range fakenet.Dials {
+		dials += n
+	}
+	resp := "SIP/2.0 200 OK\r\nVia: " + got[0] + "\r\nVia: " + got[1] + "\r\nVia: " + got[2] +
+		"\r\nFrom: <sip:alice@example.com>;tag=a\r\nTo: <sip:bob@" + wService + ">;tag=b\r\nCall-ID: c1\r\nCSeq: 1 INVITE\r\nContent-Length: 0\r\n\r\n"
+	udpSock.Deliver("10.0.1.1:5060", []byte(resp))
+	rt.Quiesce()
+	if tcp {
+		var conn *fakenet.TCPConn
+		for _, c := range fakenet.Conns {
+			if c.RemoteAddr().String() == srcIP+":4444" {
+				conn = c
+			}
+		}
+		dialsAfter := 0
+		for _, n := range fakenet.Dials {
+			dialsAfter += n
+		}
+		rt.Assert(conn != nil && len(conn.Written) == 1 && dialsAfter == dials && len(fakenet.Sent) == mark, "TCP: the response returns on the connection the request arrived on, nothing is dialled")
+	} else if noReceived {
+		rt.Assert(len(sentTo("192.0.2.1:7777", mark)) == 1 && len(fakenet.Sent) == mark+1, "no-received: the response goes to what the sender wrote")
+	} else {
+		rt.Assert(len(sentTo(srcIP+":4444", mark)) == 1 && len(fakenet.Sent) == mark+1, "UDP: the response returns to the packet's true source address and port")
 	}
 	rt.Reach("end")
 }
